@@ -27,9 +27,11 @@
 #include "util/types.h"
 #include "table/iterator.h"
 
+#ifndef NBLK
 #define NBLK 3
+#endif
 #define CUR_NCH (1 + NBLK)
-#define CUR_MAXLEN 3
+#define CUR_MAXLEN NBLK      /* >= BLK_MAXLEN */
 #define BLK_MAXLEN 2
 #define CUR_KW 1
 #define CUR_COMPARE(a, an, b, bn) ((int)(a)[0] - (int)(b)[0])
@@ -45,6 +47,7 @@ static const ldb_comparator_t stub_cmp = { "stub", stub_compare, NULL, NULL, NUL
 int g_alive[CUR_NCH];            /* the data iterator of block b exists (created, not destroyed) */
 int g_creates[CUR_NCH], g_destroys[CUR_NCH];
 int g_bad_destroy;
+int g_idx_destroys;               /* the index iterator was destroyed */
 int g_arg_tag;                   /* the cookie of block_function */
 ldb_readopt_t g_ropt0;           /* the caller's read options */
 int g_fn_bad;                    /* block_function was called with anything but (arg, &iter->options, a live index value) */
@@ -66,11 +69,16 @@ static ldb_iter_t *stub_blockfn(void *arg, const ldb_readopt_t *options, const l
 
 void ldb_iter_destroy(ldb_iter_t *iter) {
   int c = (int)(iter - CUR_ITER);
+  if (iter == &CUR_ITER[0]) { g_idx_destroys++; return; }
   if (!__CPROVER_same_object(iter, CUR_ITER) || c < 1 || c >= CUR_NCH || !g_alive[c]) { g_bad_destroy = 1; return; }
   g_alive[c] = 0; g_destroys[c]++;
   if (g_norder < 8) g_order[g_norder++] = CUR[c].status;
 }
-ldb_iter_t *ldb_iter_create(void *ptr, const ldb_itertbl_t *table, const ldb_comparator_t *cmp) { __CPROVER_assert(0, "iter_create: not part of these units"); return NULL; }
+ldb_iter_t g_outer; int g_ic_calls;
+ldb_iter_t *ldb_iter_create(void *ptr, const ldb_itertbl_t *table, const ldb_comparator_t *cmp) {
+  g_ic_calls++; g_outer.ptr = ptr; g_outer.table = table; g_outer.cmp = cmp; g_outer.cleanup_head.func = NULL; g_outer.cleanup_head.next = NULL;
+  return &g_outer;
+}
 
 /* 1-byte models of util/slice.c and util/buffer.c (handles are 1-byte slices here) */
 int ldb_slice_equal(const ldb_slice_t *x, const ldb_slice_t *y) {
@@ -112,7 +120,7 @@ static int children_wf(void) {
     if (CUR_ITER[c].ptr != &CUR[c] || CUR_ITER[c].table != &cur_table) ok = 0;
   }
   /* block handles are distinct (distinct file offsets) */
-  if (CUR_VAL[0][0] == CUR_VAL[0][1] || CUR_VAL[0][0] == CUR_VAL[0][2] || CUR_VAL[0][1] == CUR_VAL[0][2]) ok = 0;
+  for (c = 0; c < NBLK; c++) for (i = c + 1; i < NBLK; i++) if (CUR_VAL[0][c] == CUR_VAL[0][i]) ok = 0;
   return ok;
 }
 static int wrap_ok(const ldb_wrapiter_t *w, int c) {
@@ -153,7 +161,7 @@ static void setup(ldb_twoiter_t *it, int settled) {
     g_alive[c] = 0; g_creates[c] = 0; g_destroys[c] = 0;
   }
   ASSUME(children_wf());
-  g_bad_destroy = 0; g_fn_bad = 0; g_norder = 0;
+  g_bad_destroy = 0; g_fn_bad = 0; g_norder = 0; g_idx_destroys = 0; g_ic_calls = 0;
   g_ropt0.verify_checksums = nondet_int(); g_ropt0.fill_cache = nondet_int(); g_ropt0.snapshot = NULL;
   it->block_function = stub_blockfn; it->arg = &g_arg_tag; it->options = g_ropt0; it->status = nondet_int();
   it->index_iter.iter = &CUR_ITER[0]; it->index_iter.valid = CUR_VALID(0);
@@ -174,6 +182,7 @@ static void setup(ldb_twoiter_t *it, int settled) {
 
 static void check_after(const ldb_twoiter_t *it, int status0, int blk0) {
   int b = cur_block(it), c;
+  CHECK(g_idx_destroys == 0, "two-level: the index iterator lives as long as the two-level iterator");
   CHECK(!g_bad_destroy && !g_fn_bad, "two-level: block_function gets (arg, the iterator's read options, the index entry's value); only live data iterators are destroyed");
   CHECK(X.blk < 0 ? (b < 0 && !ldb_twoiter_valid(it)) : (b == X.blk && ldb_twoiter_valid(it) && CUR[1 + X.blk].pos == X.pos),
         "two-level: lands exactly where the concatenation of the data blocks says (empty / failed blocks skipped); not valid iff there is no such entry");
@@ -251,9 +260,9 @@ void h_two_status(void) {
 /* valid / key / value expose the current data entry */
 void h_two_kv(void) {
   ldb_twoiter_t it; int b; ldb_slice_t k, v;
-  setup(&it, 1); b = cur_block(&it);
-  CHECK((ldb_twoiter_valid(&it) != 0) == (b >= 0), "two-level valid: iff positioned on a data entry");
-  if (b >= 0) {
+  setup(&it, 0); b = cur_block(&it);                  /* any state, e.g. before the first positioning call */
+  CHECK((ldb_twoiter_valid(&it) != 0) == (b >= 0 && CUR_VALID(1 + b)), "two-level valid: iff there is a data iterator and it is positioned on an entry (whatever the index iterator says)");
+  if (b >= 0 && CUR_VALID(1 + b)) {
     k = ldb_twoiter_key(&it); v = ldb_twoiter_value(&it);
     CHECK(k.data == CUR_KEY[1 + b][CUR[1 + b].pos] && k.size == 1, "two-level key: the data entry's key");
     CHECK(v.data == &CUR_VAL[1 + b][CUR[1 + b].pos] && v.size == 1, "two-level value: the data entry's value");
@@ -266,5 +275,32 @@ void h_two_saverr(void) {
   setup(&it, 0); s0 = it.status;
   ldb_twoiter_saverr(&it, in_status);
   CHECK(it.status == (s0 != LDB_OK ? s0 : in_status), "two-level saverr: the first non-OK status is kept, later ones do not overwrite it");
+  CANARY();
+}
+
+/* destruction: the index iterator and the current data iterator (if any) are destroyed, each exactly once */
+void h_two_clear(void) {
+  ldb_twoiter_t it; int b0, c;
+  setup(&it, 0); b0 = cur_block(&it);
+  ldb_twoiter_clear(&it);
+  CHECK(g_idx_destroys == 1 && !g_bad_destroy, "two-level clear: the index iterator is destroyed exactly once");
+  for (c = 1; c < CUR_NCH; c++)
+    CHECK(g_destroys[c] == (b0 == c - 1 ? 1 : 0) && !g_alive[c] && g_creates[c] == 0, "two-level clear: the current data iterator is destroyed exactly once, nothing else is touched");
+  CANARY();
+}
+/* construction: not positioned, no data iterator, no error; ordered like the index iterator */
+void h_two_create(void) {
+  ldb_twoiter_t it; ldb_iter_t *r; ldb_twoiter_t *t; int c;
+  setup(&it, 0);
+  for (c = 1; c < CUR_NCH; c++) g_alive[c] = 0;
+  r = ldb_twoiter_create(&CUR_ITER[0], stub_blockfn, &g_arg_tag, &g_ropt0);
+  CHECK(r == &g_outer && g_ic_calls == 1 && r->table == &ldb_twoiter_table && r->cmp == &stub_cmp, "two-level create: an iterator with the two-level vtable, ordered by the index iterator's comparator");
+  t = (ldb_twoiter_t *)r->ptr;
+  CHECK(t->block_function == stub_blockfn && t->arg == &g_arg_tag && t->options.verify_checksums == g_ropt0.verify_checksums && t->options.fill_cache == g_ropt0.fill_cache &&
+        t->options.snapshot == g_ropt0.snapshot, "two-level create: block function, its cookie and a COPY of the read options are kept");
+  CHECK(t->status == LDB_OK && t->data_iter.iter == NULL && !ldb_twoiter_valid(t) && t->data_block_handle.size == 0, "two-level create: no error, no data iterator, not valid");
+  CHECK(wrap_ok(&t->index_iter, 0), "two-level create: owns the index iterator (wrapper coherent)");
+  CHECK(g_creates[1] == 0 && g_creates[2] == 0 && g_idx_destroys == 0, "two-level create: no block is opened yet");
+  free(t);
   CANARY();
 }
